@@ -4,3 +4,4 @@ import JPV.Props.C06
 import JPV.Props.C07
 import JPV.Props.C10
 import JPV.Props.C18
+import JPV.Props.C05
